@@ -293,7 +293,8 @@ valid answer — normal, subnormal or zero — is `roundNE (w / 10^e)`. -/
 theorem computeFloat_trunc_neg {F p eb sm lg rlo rhi} (LL : LemLayout F p eb sm lg rlo rhi) (hrlo : rlo < 28)
     (e : Nat) (h28 : 28 ≤ e) (hesm : e ≤ sm) (w : Nat) (hw0 : w ≠ 0) (hw : w < 2 ^ 64) :
     ∃ fp, computeFloat F (-(e : Int)) w false = .ok fp ∧
-      (0 ≤ fp.exp → extendedToFloat F fp = roundNE F.fmt w (10 ^ e)) := by
+      (0 ≤ fp.exp → extendedToFloat F fp = roundNE F.fmt w (10 ^ e)) ∧
+      (fp.exp < 0 → EstOK F p fp w (10 ^ e)) := by
   have lay := LL.lay
   have hf := lay.wf
   have hp := lay.hp; have hp64 := lay.hp64; have heb := lay.heb
@@ -322,27 +323,32 @@ theorem computeFloat_trunc_neg {F p eb sm lg rlo rhi} (LL : LemLayout F p eb sm 
       unfold litSafeLo; simp only [decide_eq_false_iff_not]; omega
     rw [h1]; simp
   rw [hunsafe]
+  have hwn0 : 0 < w * 2 ^ lz := by have := Nat.two_pow_pos 63; omega
+  have h5pos : 0 < 5 ^ e := Nat.pow_pos (by decide)
+  have hNlo : w * 2 ^ lz * (hi5 * 2 ^ 64 + lo5) * 5 ^ e ≤ w * 2 ^ lz * 2 ^ (b + 127) := by
+    rw [Nat.mul_assoc]; exact Nat.mul_le_mul_left _ hTlo
+  have hNhi : w * 2 ^ lz * 2 ^ (b + 127) < (w * 2 ^ lz * (hi5 * 2 ^ 64 + lo5) + w * 2 ^ lz) * 5 ^ e := by
+    calc w * 2 ^ lz * 2 ^ (b + 127) < w * 2 ^ lz * ((hi5 * 2 ^ 64 + lo5 + 1) * 5 ^ e) :=
+          Nat.mul_lt_mul_of_pos_left hThi hwn0
+      _ = (w * 2 ^ lz * (hi5 * 2 ^ 64 + lo5) + w * 2 ^ lz) * 5 ^ e := by ring
   by_cases hl : lo = litAllOnes
   · -- the fall-back: an invalid-marked answer
     have hc : (!false && lo == litAllOnes && !false) = true := by rw [hl]; simp
     rw [if_pos hc]
-    refine ⟨_, rfl, fun hv => ?_⟩
-    have := computeErrorScaled_neg lay (-(e : Int)) hi lz (by rw [hpow]; omega)
-    omega
+    refine ⟨_, rfl, fun hv => ?_, fun _ => ?_⟩
+    · have := computeErrorScaled_neg lay (-(e : Int)) hi lz (by rw [hpow]; omega)
+      omega
+    · have hall : lo + 1 = 2 ^ 64 := by
+        rw [hl, hAll]; exact Nat.sub_add_cancel (Nat.two_pow_pos 64)
+      obtain ⟨hhi62, hlow, hupp⟩ := fallback_bounds (w * 2 ^ lz) hi5 lo5 lo hi (w * 2 ^ lz * 2 ^ (b + 127))
+        (5 ^ e) hwn1 hwn2 hhi5n hhi hzlow (hzup.imp id (fun h => ⟨h.2.1, h.2.2⟩)) h5pos hNlo hNhi hall
+      exact estOK_neg lay e b lz hi w hhi hhi62 hpow hlow hupp
   · have hc : (!false && lo == litAllOnes && !false) = false := by
       have : (lo == litAllOnes) = false := by simp [hl]
       rw [this]; simp
     rw [hc]
     simp only [Bool.false_eq_true, if_false]
     have hlo2 : lo + 2 ≤ 2 ^ 64 := by rw [hAll] at hl; omega
-    have hwn0 : 0 < w * 2 ^ lz := by have := Nat.two_pow_pos 63; omega
-    have h5pos : 0 < 5 ^ e := Nat.pow_pos (by decide)
-    have hNlo : w * 2 ^ lz * (hi5 * 2 ^ 64 + lo5) * 5 ^ e ≤ w * 2 ^ lz * 2 ^ (b + 127) := by
-      rw [Nat.mul_assoc]; exact Nat.mul_le_mul_left _ hTlo
-    have hNhi : w * 2 ^ lz * 2 ^ (b + 127) < (w * 2 ^ lz * (hi5 * 2 ^ 64 + lo5) + w * 2 ^ lz) * 5 ^ e := by
-      calc w * 2 ^ lz * 2 ^ (b + 127) < w * 2 ^ lz * ((hi5 * 2 ^ 64 + lo5 + 1) * 5 ^ e) :=
-            Nat.mul_lt_mul_of_pos_left hThi hwn0
-        _ = (w * 2 ^ lz * (hi5 * 2 ^ 64 + lo5) + w * 2 ^ lz) * 5 ^ e := by ring
     generalize hu : hi / 2 ^ 63 = u
     generalize hshv : u + 62 - p = sh
     have hmb : 64 - (F.ms + litPrecisionExtra) = 62 - p := by rw [hprec]; omega
@@ -385,7 +391,7 @@ theorem computeFloat_trunc_neg {F p eb sm lg rlo rhi} (LL : LemLayout F p eb sm 
       obtain ⟨fp, hfp1, hfp2, hfp3, hq0lo, hq0hi, hm0lo⟩ := cfRound_of_quot LL (-(e : Int)) lo hi lz hhi hhi62 u sh
         hu hshv (w * 2 ^ lz * 2 ^ (b + 127)) (2 ^ sh * 2 ^ 64 * (2 ^ 64 * 5 ^ e)) En hDpos hquot.symm htie
         (by rw [hpwv, hEn])
-      refine ⟨fp, hfp1, fun _ => ?_⟩
+      refine ⟨fp, hfp1, fun _ => ?_, fun h => absurd h (by omega)⟩
       rw [hfp3, dpow_normal, hNw]
       rw [dpow_normal, hNw] at hq0lo hq0hi
       symm
@@ -412,7 +418,7 @@ theorem computeFloat_trunc_neg {F p eb sm lg rlo rhi} (LL : LemLayout F p eb sm 
         (w * 2 ^ lz * 2 ^ (b + 127)) (2 ^ sh * 2 ^ 64 * (2 ^ 64 * 5 ^ e)) t hDpos hquot.symm ht1
         (fun h => no_tie_of_big5 e (w * 2 ^ lz) (b + 127) _ h28 hwn0 hwn2 hdvd2 h.1)
         (by rw [hpwv, ht])
-      refine ⟨fp, hfp1, fun _ => ?_⟩
+      refine ⟨fp, hfp1, fun _ => ?_, fun h => absurd h (by omega)⟩
       rw [hfp3, dpow_sub, hNw]
       rw [dpow_sub, hNw] at hq0le
       symm
